@@ -731,6 +731,108 @@ def body(chk, db, cfgname):
                     r7.bad(site, f.loc(j), "%s of the part/element is set from this->%s: the tolerance the user configured is ignored and a value meant for another purpose (e.g. 1e-16 instead of 1e-8) decides the resonance branch" % (lname, rname), cfgname)
             else:
                 r7.unknown(site, f.loc(j), "tolerance assigned from %s" % f.s(n["r"])[:60], cfgname)
+    # ================================================================== R9: documented default tolerances
+    r9 = chk.rule("C02-R9", "the default tolerances are the documented ones (resonance 1e-8, coefficient 1e-16, multi-term 1e-5) at every level (container, function, part), and the term lists of a part merge poles within 1e-8 and drop coefficients below 1e-16", "F7 code vs documentation", 4)
+    import re as _re
+    from pv import pipeline as _pl
+    documented = {}
+    for hdr in ("include/pomerol/TwoParticleGF.h", "include/pomerol/TwoParticleGFPart.h", "include/pomerol/TwoParticleGFContainer.h"):
+        try:
+            txt = open(_pl.REPO + "/" + hdr).read()
+        except OSError:
+            continue
+        for m_ in _re.finditer(r"default\s*=\s*([0-9.]+(?:[eE][+-]?[0-9]+)?)\.?\s*\*/\s*\n\s*RealType\s+(\w+)\s*;", txt):
+            documented.setdefault(m_.group(2), set()).add(float(m_.group(1)))
+    wanted = ("ReduceResonanceTolerance", "CoefficientTolerance", "MultiTermCoefficientTolerance")
+    if not all(nm in documented and len(documented[nm]) == 1 for nm in wanted):
+        r9.unknown("Pomerol::TwoParticleGF:documented-defaults", f.loc(), "the headers do not document one default per tolerance (found %s)" % {k_: sorted(v_) for k_, v_ in documented.items()}, cfgname)
+    else:
+        for cls_ in (G2, P, "Pomerol::TwoParticleGFContainer"):
+            for c_ in sorted([x for x in db.fns_named(cls_ + "::" + cls_.split("::")[-1]) if x.kind == "ctor" and x.body is not None and x.body >= 0 and len(x.params) > 1], key=lambda y: (y.file, y.line)):
+                cc_ = Ctx(c_, db)
+                ini_ = {i_.get("field"): cc_.key(i_["e"]) for i_ in c_.d.get("inits", []) if i_.get("field") and i_.get("written")}
+                wrong_ = []
+                for nm in wanted:
+                    k_ = ini_.get(nm)
+                    if k_ is None:
+                        continue
+                    if not (k_[0] == "lit" and abs(float(k_[1]) - list(documented[nm])[0]) <= 1e-12 * abs(list(documented[nm])[0])):
+                        wrong_.append("%s = %s (documented default %g)" % (nm, k_[1] if k_[0] == "lit" else "?", list(documented[nm])[0]))
+                site = "%s:default-tolerances" % c_.qn
+                if not any(nm in ini_ for nm in wanted):
+                    continue
+                if wrong_:
+                    r9.bad(site, c_.loc(), "default tolerance differs from the documentation: " + "; ".join(wrong_), cfgname)
+                else:
+                    r9.ok(site, c_.loc(), "resonance / coefficient / multi-term tolerances start at their documented defaults", cfgname)
+    pc_ = [x for x in db.fns_named(P + "::TwoParticleGFPart") if x.kind == "ctor" and len(x.params) > 3]
+    if len(pc_) == 1:
+        cc_ = Ctx(pc_[0], db)
+        ini_ = {i_.get("field"): cc_.key(i_["e"]) for i_ in pc_[0].d.get("inits", []) if i_.get("field")}
+        site = P + ":term-list-tolerances"
+        probs_ = []
+        for lst_, cls_ in (("NonResonantTerms", NR), ("ResonantTerms", RT)):
+            k_ = ini_.get(lst_)
+            lits_ = [y for y in _subkeys(k_)] if k_ is not None else []
+            cmp_ = [y for y in lits_ if y[0] == "ctor" and y[1] == cls_ + "::Compare" and len(y) == 3 and y[2][0] == "lit"]
+            neg_ = [y for y in lits_ if y[0] == "ctor" and y[1] == cls_ + "::IsNegligible" and len(y) == 3 and y[2][0] == "lit"]
+            if len(cmp_) != 1 or len(neg_) != 1:
+                raise AnalysisBroken("TwoParticleGFPart constructor: the term lists are not built from Compare(tol) / IsNegligible(tol) literals")
+            if not (0 < float(cmp_[0][2][1]) <= 1e-8):
+                probs_.append("%s merges terms whose poles differ by less than %s (documented 1e-8)" % (lst_, cmp_[0][2][1]))
+            if not (0 < float(neg_[0][2][1]) <= 1e-16 * 1.0000001):
+                probs_.append("%s drops coefficients below %s (documented 1e-16)" % (lst_, neg_[0][2][1]))
+        if probs_:
+            r9.bad(site, pc_[0].loc(), "; ".join(probs_), cfgname)
+        else:
+            r9.ok(site, pc_[0].loc(), "Compare(<= 1e-8), IsNegligible(<= 1e-16) for both term lists", cfgname)
+
+    # ================================================================== R10: the comparators that decide which terms are merged
+    r10 = chk.rule("C02-R10", "the term comparators are strict orders whose equivalence is `same form flag and all three poles equal within the tolerance`: exactly the terms that may be merged are", "F8 guards (comparator bodies evaluated on a grid of pole triples)", 2)
+    from pv.summ import Interp as _Interp, Obj as _Obj, Thrown as _Thrown
+    for cls_, flag_ in ((NR, "isz4"), (RT, "isz1z2")):
+        cf_ = [x for x in db.fns.values() if strip_targs(x.name) == cls_ + "::Compare::operator()" and len(x.params) == 2 and x.body is not None and x.body >= 0]
+        site = cls_ + "::Compare"
+        if len(cf_) != 1:
+            r10.unknown(site, f.loc(), "comparator not found", cfgname)
+            continue
+        with r10.guard(site, cf_[0].loc(), cfgname):
+            grid = [sp.Integer(0), sp.Rational(1, 4), sp.Integer(2)]
+            terms_ = [(fl_, a_, b_, c_) for fl_ in (0, 1) for a_ in grid for b_ in grid for c_ in grid]
+
+            def mk_(t_):
+                return _Obj("term", **{cls_ + "::" + flag_: t_[0], cls_ + "::Poles": [t_[1], t_[2], t_[3]], cls_ + "::Coeff": sp.Integer(1), cls_ + "::ResCoeff": sp.Integer(1), cls_ + "::NonResCoeff": sp.Integer(1), cls_ + "::Weight": 1})
+            cmpobj = _Obj("Compare", **{cls_ + "::Compare::Tolerance": sp.Integer(1)})
+            ip_ = _Interp(db, {})
+            less = {}
+            for x_ in terms_:
+                for y_ in terms_:
+                    try:
+                        less[(x_, y_)] = bool(ip_.call_fn(cf_[0], [mk_(x_), mk_(y_)], this=cmpobj))
+                    except _Thrown as t_:
+                        raise AnalysisBroken("the comparator throws (%s)" % t_.tt)
+                    ip_.steps = 0
+            similar = lambda x_, y_: x_[0] == y_[0] and all(abs(x_[k_] - y_[k_]) < 1 for k_ in (1, 2, 3))
+            fmt_ = lambda t_: "(%s=%d, poles %s %s %s)" % (flag_, t_[0], t_[1], t_[2], t_[3])
+            bad_ = None
+            for x_ in terms_:
+                for y_ in terms_:
+                    a_, b_ = less[(x_, y_)], less[(y_, x_)]
+                    if a_ and b_:
+                        bad_ = "%s < %s and %s < %s both hold (tolerance 1): not an order, std::set with this comparator is undefined and like terms are not found" % (fmt_(x_), fmt_(y_), fmt_(y_), fmt_(x_))
+                    elif similar(x_, y_) and (a_ or b_):
+                        bad_ = "%s and %s agree within the tolerance in every pole but are ordered: like terms are kept apart instead of merged" % (fmt_(x_), fmt_(y_))
+                    elif not similar(x_, y_) and not a_ and not b_:
+                        bad_ = "%s and %s differ (form flag or a pole by more than the tolerance) but neither is less: they are treated as the same term and merged" % (fmt_(x_), fmt_(y_))
+                    if bad_:
+                        break
+                if bad_:
+                    break
+            if bad_:
+                r10.bad(site, cf_[0].loc(), bad_, cfgname)
+            else:
+                r10.ok(site, cf_[0].loc(), "strict order on %d sample terms; equivalent exactly when the flag agrees and all poles agree within the tolerance (comparator body interpreted)" % len(terms_), cfgname)
+
     r_idem = chk.rule("C02-R8", "prepare()/compute() are idempotent: the early-return level is the level the function establishes", "F1 pairing", 2)
     from checks.lehmann import check_status_guards
     check_status_guards(r_idem, db, cfgname, ("Pomerol::TwoParticleGF",))
